@@ -345,10 +345,15 @@ class ValueArgsError(Exception):
     """
 
     def __init__(self, arg_name, arg_value, return_value = None):
+        # The argument value may have no JSON form (non-finite number, self-containing container)
+        try:
+            arg_json = value_json(arg_value)
+        except (ValueError, RecursionError):
+            arg_json = f'<{value_type(arg_value)}>'
         if arg_name is None:
-            message = f'Too many arguments ({value_json(arg_value)})'
+            message = f'Too many arguments ({arg_json})'
         else:
-            message = f'Invalid "{arg_name}" argument value, {value_json(arg_value)}'
+            message = f'Invalid "{arg_name}" argument value, {arg_json}'
         super().__init__(message)
         self.return_value = return_value
 
